@@ -49,6 +49,10 @@ SHAPES = [
     ("g8", "S: x | B S b | A S b; B: A A; A: EMPTY;"),
     ("first-empty", "S: A S | b; A: a | EMPTY;"),
     ("first-empty-2", "X: Y S c; S: A b; A: a | EMPTY; Y: y;"),
+    ("lex-alt", "S: A | B | B C; A: a; B: aa; C: b;"),
+    ("nullable-rhs3", "S: S a a | A A | A S b; A: EMPTY;"),
+    ("nullable-tails", "S: P A B | P A C; P: P a | a; A: A a | a; B: EMPTY; C: EMPTY;"),
+    ("glr-revisit", "S: b S S | b a | EMPTY;"),
 ]
 
 
